@@ -480,6 +480,7 @@ type scrambler struct {
 	written map[uintptr]bool // addresses of leaves/cells already overwritten
 	seen    map[visitKey]bool
 	n       int
+	keep    []reflect.Value // temporaries stay alive so that their addresses are not reused
 }
 
 // Scramble overwrites every mutable location reachable from the addressable value v: every
@@ -586,14 +587,15 @@ func (s *scrambler) scramble(v reflect.Value) {
 			return
 		}
 		s.seen[k] = true
-		s.n++
 		if v.Len() == 0 {
+			s.n++
 			v.SetMapIndex(reflect.Zero(v.Type().Key()), reflect.Zero(v.Type().Elem()))
 			return
 		}
 		keys := v.MapKeys()
 		for _, key := range keys {
 			tmp := reflect.New(v.Type().Elem()).Elem()
+			s.keep = append(s.keep, tmp)
 			tmp.Set(v.MapIndex(key))
 			s.scramble(tmp)
 			v.SetMapIndex(key, tmp)
@@ -607,6 +609,7 @@ func (s *scrambler) scramble(v reflect.Value) {
 			return
 		}
 		tmp := reflect.New(v.Elem().Type()).Elem()
+		s.keep = append(s.keep, tmp)
 		tmp.Set(v.Elem())
 		s.scramble(tmp)
 		v.Set(tmp)
